@@ -20,6 +20,7 @@ import (
 	"math/rand"
 	"os"
 	"path/filepath"
+	"runtime"
 	"sort"
 	"strconv"
 	"strings"
@@ -1666,9 +1667,60 @@ func readCases(path string) ([][]gop, []string, error) {
 }
 
 // watchdog (outside every bubble, wall clock): a case that makes no progress is a deadlock of the engine
+// deadlockEvidence inspects a dump of all goroutines. A deadlock of the engine is PROVEN by state, not by elapsed time:
+// at least one goroutine is blocked acquiring a mutex with the engine on its stack (sync.Mutex.Lock under
+// basic.(*Engine)...), and no goroutine other than the caller (the watchdog) is running or runnable. It returns the ids of
+// the mutex-blocked engine goroutines (sorted, as one string), their stacks, and whether anything else can still run.
+func deadlockEvidence() (blocked string, stacks string, live bool) {
+	buf := make([]byte, 1<<20)
+	for {
+		n := runtime.Stack(buf, true)
+		if n < len(buf) {
+			buf = buf[:n]
+			break
+		}
+		buf = make([]byte, 2*len(buf))
+	}
+	var ids []string
+	first := true
+	for _, g := range strings.Split(string(buf), "\n\n") {
+		head, _, _ := strings.Cut(g, "\n")
+		if !strings.HasPrefix(head, "goroutine ") {
+			continue
+		}
+		f := strings.Fields(head)
+		state := ""
+		if i := strings.IndexByte(head, '['); i >= 0 {
+			state = strings.TrimRight(head[i+1:], "]:")
+		}
+		if first { // runtime.Stack prints the calling goroutine first
+			first = false
+			continue
+		}
+		switch {
+		case strings.HasPrefix(state, "running"), strings.HasPrefix(state, "runnable"), strings.HasPrefix(state, "syscall"):
+			if !strings.Contains(g, "os/signal.") && !strings.Contains(g, "runtime.ensureSigM") {
+				live = true
+			}
+		case strings.HasPrefix(state, "sync.Mutex.Lock"), strings.HasPrefix(state, "semacquire"), strings.HasPrefix(state, "sync.RWMutex"):
+			if strings.Contains(g, "engine/basic.(*Engine)") {
+				ids = append(ids, f[1])
+				stacks += g + "\n\n"
+			}
+		}
+	}
+	sort.Strings(ids)
+	return strings.Join(ids, ","), stacks, live
+}
+
+// watchdog (outside every bubble). No wall-clock limit decides a verdict: when a case makes no progress the watchdog looks
+// at the goroutines; only when the same engine goroutines are blocked on a mutex, nothing else is runnable and the
+// operation counter has not moved, in two inspections 2 s apart, the deadlock is recorded (with the stacks) and the
+// process exits. Otherwise it keeps waiting (a slow machine is not a deadlock).
 func watchdog(out *bufio.Writer, cur *atomic.Value, stop chan struct{}) {
 	last := progress.Load()
 	stall := 0
+	prevBlocked := ""
 	for {
 		select {
 		case <-stop:
@@ -1677,20 +1729,36 @@ func watchdog(out *bufio.Writer, cur *atomic.Value, stop chan struct{}) {
 		}
 		now := progress.Load()
 		if now != last {
-			last, stall = now, 0
+			last, stall, prevBlocked = now, 0, ""
 			continue
 		}
 		stall++
-		if stall >= 16 { // 8 s of wall clock without finishing a single operation
-			ops, _ := cur.Load().([]gop)
-			fmt.Fprintf(out, "deadlock at-op %d\n", now)
-			for _, g := range ops {
-				fmt.Fprintf(out, "gop %s\n", g.String())
-			}
-			fmt.Fprintf(out, "end\n")
-			out.Flush()
-			os.Exit(3)
+		if stall < 4 || stall%4 != 0 { // first look after 2 s without progress, then every 2 s
+			continue
 		}
+		blocked, stacks, live := deadlockEvidence()
+		if blocked == "" || live || progress.Load() != now {
+			prevBlocked = ""
+			if stall%40 == 0 {
+				fmt.Fprintf(os.Stderr, "watchdog: no operation finished for %d s, but goroutines can still run: waiting\n", stall/2)
+			}
+			continue
+		}
+		if blocked != prevBlocked { // first sighting: look again
+			prevBlocked = blocked
+			continue
+		}
+		ops, _ := cur.Load().([]gop)
+		fmt.Fprintf(out, "deadlock at-op %d goroutines %s\n", now, blocked)
+		for _, l := range strings.Split(strings.TrimSpace(stacks), "\n") {
+			fmt.Fprintf(out, "stack %s\n", l)
+		}
+		for _, g := range ops {
+			fmt.Fprintf(out, "gop %s\n", g.String())
+		}
+		fmt.Fprintf(out, "end\n")
+		out.Flush()
+		os.Exit(3)
 	}
 }
 
